@@ -119,3 +119,20 @@ def positions_unsorted(all_labels, labels):
 def positions_sorted(all_labels, labels):
     ref = np.unique(all_labels)
     return np.searchsorted(ref, labels)
+
+
+def leaky_work_array(n, score):
+    theta = np.zeros(n)
+    best = []
+    for i in range(n - 1):
+        theta[i] = 1.0
+        theta[i + 1] = -1.0
+        best.append(score(theta))
+    return best
+
+
+def accumulator_only(n, score):
+    out = np.zeros(n)
+    for i in range(n):
+        out[i] = score(i)
+    return out
